@@ -50,12 +50,12 @@ type cutRun struct {
 	sr  *iosim.SimReader
 }
 
-func runCut(b []byte, pre iosim.Schedule, cut *Cut, nameArgs bool, cov *Cov) cutRun {
+func runCut(b []byte, pre iosim.Schedule, cut *Cut, oc *Case, cov *Cov) cutRun {
 	clk := &core.Clock{}
 	sr := iosim.NewSimReader(b[:cut.K], cutSchedule(pre, cut), clk)
 	sr.FailErr = iosim.FailErrFor(cut.Err)
 	w := iosim.NewSimWriter(clk)
-	res := ScanOnce(sr, w, (&Case{NameArgs: nameArgs}).Opts())
+	res := ScanOnce(sr, w, oc.Opts())
 	res.OffAfter = sr.Offset()
 	if cov != nil {
 		cov.Steps += clk.Now()
@@ -107,7 +107,7 @@ func CheckC10(c *Case, cov *Cov) []*Violation {
 		c.Cut.K = len(b)
 	}
 	// uncut reference: the same stream, never cut, one-shot delivery
-	ref := runCut(b, iosim.Schedule{}, &Cut{K: len(b), Kind: "close"}, c.NameArgs, nil)
+	ref := runCut(b, iosim.Schedule{}, &Cut{K: len(b), Kind: "close"}, c, nil)
 	return checkCut(c, s, ref, cov)
 }
 
@@ -122,7 +122,7 @@ func checkCut(c *Case, s *gen.Stream, ref cutRun, cov *Cov) []*Violation {
 		add("panic", "", "the uncut stream panics: "+ref.res.Panic)
 		return vs
 	}
-	run := runCut(b, c.Sched, cut, c.NameArgs, cov)
+	run := runCut(b, c.Sched, cut, c, cov)
 	res := run.res
 	if res.Panic != "" {
 		add("panic", "", res.Panic)
@@ -177,7 +177,7 @@ func checkCut(c *Case, s *gen.Stream, ref cutRun, cov *Cov) []*Violation {
 			alt.Kind = "close"
 			ac := *c
 			ac.Cut = &alt
-			cr := runCut(b, c.Sched, &alt, c.NameArgs, nil)
+			cr := runCut(b, c.Sched, &alt, c, nil)
 			ck := ErrKey(cr.res.Err)
 			rem := append(append([]byte(nil), res.Suffix...), run.sr.Unread()...)
 			endedAtFragment := len(frag) > 0 && bytes.Equal(rem, frag)
@@ -205,6 +205,29 @@ func checkCut(c *Case, s *gen.Stream, ref cutRun, cov *Cov) []*Violation {
 		add("forward-prefix", known, fmt.Sprintf("forwarded %s is not a prefix of what the uncut stream forwards (%s); surplus %s", Clip(res.Fwd, 80), Clip(ref.res.Fwd, 80), Clip(surplus(res.Fwd, ref.res.Fwd), 80)))
 	}
 	// complete goroutines
+	//
+	// With path guessing and source augmentation on (c.Tree), part of what a
+	// goroutine holds is inferred from the whole snapshot (the remote roots are
+	// found from all frames), so a cut legitimately changes it, like the pointer
+	// pseudo-names. What must still hold there: the outcome is a function of the
+	// bytes delivered, not of HOW the stream ended - a cut signalled as a reader
+	// failure yields the same goroutines, with everything guessed and
+	// augmented, as the same cut signalled as a plain end of stream.
+	if c.Tree {
+		if cut.Kind != "fail" {
+			return vs
+		}
+		alt := *cut
+		alt.Kind = "close"
+		ar := runCut(b, c.Sched, &alt, c, nil)
+		ref = ar
+		n0 := len(vs)
+		defer func() {
+			for _, v := range vs[n0:] {
+				v.Msg = strings.ReplaceAll(v.Msg, "the uncut scan", "the same cut signalled as a plain end of stream (path guessing and source augmentation on)")
+			}
+		}()
+	}
 	if len(s.Dumps) > 0 && ref.res.Snap != nil {
 		di := &s.Dumps[0]
 		refG := StripNames(ref.res.Snap.Goroutines)
@@ -385,9 +408,16 @@ func RunC10(r *core.Rng, run uint64, seed uint64, tier string, cov *Cov) []*Viol
 	s := gen.Render(doc)
 	b := s.Bytes
 	nameArgs := r.Chance(0.5)
+	// a quarter of the runs with path guessing and source augmentation on, over
+	// a tree in which the generated source paths resolve: what these add to a
+	// goroutine belongs to "identical to what the uncut stream yields" too
+	tree := r.Chance(0.25)
+	if tree {
+		cov.Probe("guess-paths-and-sources")
+	}
 	ih := core.Hash(b)
 	cov.Inputs[ih]++
-	ref := runCut(b, iosim.Schedule{}, &Cut{K: len(b), Kind: "close"}, nameArgs, nil)
+	ref := runCut(b, iosim.Schedule{}, &Cut{K: len(b), Kind: "close"}, &Case{NameArgs: nameArgs, Tree: tree}, nil)
 	// one seeded chunking used for the "chunked" pre-cut delivery
 	chunked := iosim.Random(r, len(b), iosim.RandomOpts{MeanChunk: []float64{1.5, 7, 40}[r.Intn(3)], PZero: 0.05, PShort: 0.1, Hot: hotOffsets(s), PHot: 0.3})
 	var pre []iosim.Step
@@ -443,7 +473,7 @@ func RunC10(r *core.Rng, run uint64, seed uint64, tier string, cov *Cov) []*Viol
 					if di == 1 && k%2 == 1 && len(b) > 1500 {
 						continue // chunked variant on every other offset for larger streams
 					}
-					c := &Case{Prop: "C10", Run: run, Seed: seed, Mode: "cut", Doc: doc, Sched: pre, Cut: &Cut{K: k, Kind: kind, With: with, Err: errKind(kind, k)}, NameArgs: nameArgs}
+					c := &Case{Prop: "C10", Run: run, Seed: seed, Mode: "cut", Doc: doc, Sched: pre, Cut: &Cut{K: k, Kind: kind, With: with, Err: errKind(kind, k)}, NameArgs: nameArgs, Tree: tree}
 					cov.Evaluations++
 					if hasDump {
 						cov.Distinct[core.Hash([]byte(ih), []byte(fmt.Sprint(k, kind, with, di)))]++
@@ -460,7 +490,7 @@ func RunC10(r *core.Rng, run uint64, seed uint64, tier string, cov *Cov) []*Viol
 		}
 		// the resume loop at sampled offsets
 		if k%7 == int(run%7) {
-			c := &Case{Prop: "C10", Run: run, Seed: seed, Mode: "cutloop", Doc: doc, Sched: chunked, Cut: &Cut{K: k, Kind: []string{"close", "fail"}[k%2], With: k%3 == 0, Err: errKind([]string{"close", "fail"}[k%2], k/2)}, NameArgs: nameArgs}
+			c := &Case{Prop: "C10", Run: run, Seed: seed, Mode: "cutloop", Doc: doc, Sched: chunked, Cut: &Cut{K: k, Kind: []string{"close", "fail"}[k%2], With: k%3 == 0, Err: errKind([]string{"close", "fail"}[k%2], k/2)}, NameArgs: nameArgs, Tree: tree}
 			cov.Evaluations++
 			for _, v := range checkC10Loop(c, cov) {
 				if !seen[v.Clause] {
